@@ -257,6 +257,11 @@ func (osObj *VirtualOS) SetArgs(args []string) {
 }
 
 func (osObj *VirtualOS) Chdir(dir string) error {
+	// A relative directory is relative to the current one, like every other
+	// relative path
+	if !filepath.IsAbs(dir) {
+		dir = filepath.Join(osObj.cwd, dir)
+	}
 	osObj.cwd = dir
 	return nil
 }
